@@ -380,8 +380,26 @@ class ProgramGen(object):
         hs = [(n, self.lookup(n)[1]) for n in self.inst_vars(kl)]
         skl = HOME_SELF[self.home]
         if skl and (kl is None or kl == skl) and self.r.random() < 0.5:
-            hs.append(('self', skl))
+            hs.append((self.self_word(), skl))
         return hs
+
+    def self_word(self):
+        """`self` is a keyword: any letter case"""
+        return self.r.choice(['self', 'self', 'self', 'SELF', 'Self'])
+
+    def inst_names(self, kl):
+        """instance NAMES usable in delete / relate / unrelate: instance variables of the class, and `self`"""
+        ns = self.inst_vars(kl)
+        if HOME_SELF[self.home] == kl and self.r.random() < 0.6:
+            ns = ns + [self.self_word()]
+        return ns
+
+    def rel_word(self, numb):
+        """a relationship id is a number: R1 = R01 = r1"""
+        w = self.r.random()
+        if w < 0.8:
+            return 'R%d' % numb
+        return self.r.choice(['R0%d', 'R00%d', 'r%d', 'r0%d']) % numb
 
     def params_text(self, params, depth, sel):
         parts = []
@@ -557,7 +575,7 @@ class ProgramGen(object):
             if not opts:
                 break
             numb, dst, phrase, need = r.choice(opts)
-            text += '->%s[R%d%s]' % (dst, numb, self.phrase(phrase, need))
+            text += '->%s[%s%s]' % (dst, self.rel_word(numb), self.phrase(phrase, need))
             cur = dst
         return text, cur
 
@@ -623,7 +641,12 @@ class ProgramGen(object):
             ty = r.choice(SCALARS + ['integer', 'boolean', 'Color'])
             existing = self.visible(lambda v: v == ('trn', ty))
             e = self.expr(ty, 0)[0]
-            if existing and r.random() < 0.4:
+            others = self.visible(lambda v: v[0] == 'trn' and v[1] in SCALARS and v[1] != ty)
+            if others and ty in SCALARS and r.random() < 0.15:
+                # a later assignment of ANOTHER type: the variable keeps the type first assigned to it
+                name = r.choice(others)
+                self.stats['retyped_assignments'] = self.stats.get('retyped_assignments', 0) + 1
+            elif existing and r.random() < 0.4:
                 name = r.choice(existing)
             else:
                 name = self.fresh({'integer': 'i', 'real': 'x', 'string': 's', 'boolean': 'b'}.get(ty, 'e'))
@@ -688,12 +711,15 @@ class ProgramGen(object):
         if k == 'create_nv':
             return [['s', 'create object instance of %s' % r.choice(SPEC['classes'])['kl'], 'plain']]
         if k == 'delete':
-            return [['s', 'delete object instance %s' % r.choice(self.inst_vars()), 'plain']]
+            cands = self.inst_vars()
+            if HOME_SELF[self.home] and r.random() < 0.2:
+                cands = cands + [self.self_word()]
+            return [['s', 'delete object instance %s' % r.choice(cands), 'plain']]
         if k in ('relate', 'unrelate'):
             rels = []
             for numb, a, b, ph_ab, ph_ba, link in SPEC['rels']:
-                for va in self.inst_vars(a):
-                    for vb in self.inst_vars(b):
+                for va in self.inst_names(a):
+                    for vb in self.inst_names(b):
                         if link:
                             for vl in self.inst_vars(link):
                                 rels.append((va, vb, numb, ph_ab, a == b, vl))
@@ -702,8 +728,8 @@ class ProgramGen(object):
             if not rels:
                 return []
             va, vb, numb, ph, need, vl = r.choice(rels)
-            text = '%s %s %s %s across R%d%s' % (k, va, 'to' if k == 'relate' else 'from', vb, numb,
-                                                 self.phrase(ph, need))
+            text = '%s %s %s %s across %s%s' % (k, va, 'to' if k == 'relate' else 'from', vb, self.rel_word(numb),
+                                                self.phrase(ph, need))
             if vl:
                 text += ' using %s' % vl
             return [['s', text, 'plain']]
@@ -764,8 +790,10 @@ class ProgramGen(object):
             data = []
             for nm in r.sample(['count', 'who', 'flag', 'amount'], r.choice([0, 0, 1, 2, 3])):
                 data.append('%s: %s' % (nm, self.expr(r.choice(SCALARS), 1)[0]))
-            spec = "%s:%s(%s)" % (label, "'%s'" % meaning if (' ' in meaning or r.random() < 0.6) else meaning,
-                                  ', '.join(data))
+            # the meaning may be omitted (the regenerated text prints the modelled one)
+            mtext = '' if r.random() < 0.2 else ':' + ("'%s'" % meaning if (' ' in meaning or r.random() < 0.6)
+                                                       else meaning)
+            spec = "%s%s(%s)" % (label, mtext, ', '.join(data))
             if k == 'gen_evt':
                 return [['s', 'generate %s to %s' % (spec, to), 'plain']]
             name = self.target_var('evt', None, 'ev')
@@ -999,15 +1027,31 @@ class Rig(object):
 _CALLS = ('ImplicitInvocationNode', 'BridgeInvocationNode', 'ClassInvocationNode', 'PortInvocationNode')
 
 
-def canon_py(x, ees, classes):
+def _canon_name(n):
+    return 'self' if n.lower() == 'self' else n
+
+
+def _canon_rel(s):
+    import re
+    m = re.fullmatch(r'[Rr](\d+)', s)
+    return 'R%d' % int(m.group(1)) if m else s
+
+
+def event_meanings():
+    return dict((label, "'%s'" % meaning) for _, ism, asm in SPEC['events'] for label, meaning in ism + asm)
+
+
+def canon_py(x, ees, classes, events=None):
     """the C05 normal form on the generic s-expression encoding of a tree (harness/oal_sexp.py):
     operator keywords, boolean literals and select cardinalities lower-cased; a bare NS::f(...) classified as
-    bridge (NS is an external entity) / class operation (NS is a class) / port message (neither)."""
+    bridge (NS is an external entity) / class operation (NS is a class) / port message (neither); the keyword self
+    as instance name of delete / relate / unrelate in lower case; relationship ids as R<number>; the meaning of a known
+    event as the model states it.  Nothing else is touched (identifiers are case-sensitive)."""
     from sexp import Sym
     if not isinstance(x, list) or not x or not isinstance(x[0], Sym):
         return x
     head = str(x[0])
-    rest = [canon_py(e, ees, classes) for e in x[1:]]
+    rest = [canon_py(e, ees, classes, events) for e in x[1:]]
     if head == 'UnaryOperationNode':
         rest[0] = rest[0].lower()
     elif head == 'BinaryOperationNode':
@@ -1016,6 +1060,18 @@ def canon_py(x, ees, classes):
         rest[0] = rest[0].lower()
     elif head in ('SelectFromNode', 'SelectFromWhereNode', 'SelectRelatedNode', 'SelectRelatedWhereNode'):
         rest[0] = rest[0].lower()
+    elif head == 'DeleteNode':
+        rest[0] = _canon_name(rest[0])                      # the keyword self in any letter case; no other name
+    elif head in ('RelateNode', 'UnrelateNode', 'RelateUsingNode', 'UnrelateUsingNode'):
+        rest[0], rest[1], rest[2] = _canon_name(rest[0]), _canon_name(rest[1]), _canon_rel(rest[2])
+        if len(rest) == 5:
+            rest[4] = _canon_name(rest[4])
+    elif head == 'NavigationStepNode':
+        rest[1] = _canon_rel(rest[1])                       # a relationship id is a number
+    elif head == 'EventSpecNode':
+        ev = event_meanings() if events is None else events
+        if rest[0] in ev:
+            rest[1] = ev[rest[0]]                           # the meaning is printed from the model
     elif head == 'ImplicitInvocationNode':
         ns = rest[0]
         head = 'BridgeInvocationNode' if ns in ees else ('ClassInvocationNode' if ns in classes
